@@ -343,3 +343,18 @@ def quiet_logs():
 def unix_socket_path():
     d = tempfile.mkdtemp(prefix="vsock_", dir="/var/tmp")
     return os.path.join(d, "s")
+
+
+def join_oneway_threads(ceiling=30.0):
+    """wait until every oneway-call thread that exists right now has finished (threads in start-up limbo are retried)"""
+    t0 = time.time()
+    for t in threading.enumerate():
+        if t.name == "oneway-call":
+            while True:
+                try:
+                    t.join(max(0.0, ceiling - (time.time() - t0)))
+                    break
+                except RuntimeError:        # "cannot join thread before it is started": it is being started right now
+                    time.sleep(0.001)
+                    if time.time() - t0 > ceiling:
+                        break
